@@ -16,6 +16,169 @@ import (
 	"verifharness/ref"
 )
 
+// ufeCase is one case of the directed "unknown for_each" family.
+type ufeCase struct {
+	src                            string
+	kind                           string
+	spec                           hcldec.Spec
+	abstract, concrete             map[string]cty.Value
+	unknownPresent, knownNeighbour bool
+}
+
+// drawUFECase draws a body (static and dynamic blocks of one type, some over unknown
+// collections, static blocks reading variables of their own) and a block-collection spec.
+func drawUFECase(t *rapid.T) ufeCase {
+	kind := rapid.SampledFrom([]string{"list", "list", "set", "tuple", "map", "map2", "object"}).Draw(t, "speckind")
+	nlabels := 0
+	switch kind {
+	case "map", "object":
+		nlabels = 1
+	case "map2":
+		nlabels = 2
+	}
+	nested := rapid.IntRange(0, 2).Draw(t, "nested") == 0
+	kty := cty.String
+	if kind == "tuple" || kind == "object" {
+		kty = cty.DynamicPseudoType // not allowed inside the homogeneous collections
+	}
+	innerAttrs := hcldec.ObjectSpec{
+		"v": &hcldec.AttrSpec{Name: "v", Type: cty.String},
+		"k": &hcldec.AttrSpec{Name: "k", Type: kty},
+	}
+	if nested {
+		innerAttrs["inner"] = &hcldec.BlockListSpec{TypeName: "inner", Nested: hcldec.ObjectSpec{"w": &hcldec.AttrSpec{Name: "w", Type: cty.String}}}
+	}
+	var spec hcldec.Spec
+	labelNames := []string{"l1", "l2"}[:nlabels]
+	switch kind {
+	case "list":
+		spec = &hcldec.BlockListSpec{TypeName: "b", Nested: innerAttrs}
+	case "set":
+		spec = &hcldec.BlockSetSpec{TypeName: "b", Nested: innerAttrs}
+	case "tuple":
+		spec = &hcldec.BlockTupleSpec{TypeName: "b", Nested: innerAttrs}
+	case "map", "map2":
+		spec = &hcldec.BlockMapSpec{TypeName: "b", LabelNames: labelNames, Nested: innerAttrs}
+	default:
+		spec = &hcldec.BlockObjectSpec{TypeName: "b", LabelNames: labelNames, Nested: innerAttrs}
+	}
+	if rapid.Bool().Draw(t, "wrapped") {
+		spec = hcldec.ObjectSpec{"bs": spec, "top": &hcldec.AttrSpec{Name: "top", Type: cty.String}}
+	}
+	// scope
+	drawColl := func(label string) cty.Value {
+		n := rapid.IntRange(0, 3).Draw(t, label+"_n")
+		shape := rapid.SampledFrom([]string{"list", "map", "set"}).Draw(t, label+"_shape")
+		var elems []cty.Value
+		m := map[string]cty.Value{}
+		for i := 0; i < n; i++ {
+			s := fmt.Sprintf("%s%d", label, i)
+			elems = append(elems, cty.StringVal(s))
+			m["k"+s] = cty.StringVal(s)
+		}
+		switch {
+		case shape == "list" && n > 0:
+			return cty.ListVal(elems)
+		case shape == "list":
+			return cty.ListValEmpty(cty.String)
+		case shape == "map" && n > 0:
+			return cty.MapVal(m)
+		case shape == "map":
+			return cty.MapValEmpty(cty.String)
+		case n > 0:
+			return cty.SetVal(elems)
+		default:
+			return cty.SetValEmpty(cty.String)
+		}
+	}
+	concrete := map[string]cty.Value{"k1": drawColl("k1"), "k2": drawColl("k2"), "u1": drawColl("u1"), "u2": drawColl("u2"),
+		"sv0": cty.StringVal("s0"), "sv1": cty.StringVal("s1"), "sv2": cty.StringVal("s2"), "sv3": cty.StringVal("s3"), "sv4": cty.StringVal("s4")}
+	abstract := map[string]cty.Value{}
+	for n, v := range concrete {
+		abstract[n] = v
+		if strings.HasPrefix(n, "u") {
+			if rapid.IntRange(0, 3).Draw(t, "dynamic_typed") == 0 {
+				abstract[n] = cty.DynamicVal
+			} else {
+				abstract[n] = cty.UnknownVal(v.Type())
+			}
+		}
+	}
+	// body
+	var sb strings.Builder
+	nItems := rapid.IntRange(1, 5).Draw(t, "nitems")
+	unknownPresent, knownNeighbour, labelSeq := false, false, 0
+	labelsFor := func(dynamic bool, it string) string {
+		var ls []string
+		for i := 0; i < nlabels; i++ {
+			labelSeq++
+			if dynamic && rapid.Bool().Draw(t, "label_from_iterator") {
+				ls = append(ls, fmt.Sprintf("\"${%s.key}-%d\"", it, labelSeq))
+			} else {
+				ls = append(ls, fmt.Sprintf("\"s%d\"", labelSeq))
+			}
+		}
+		return strings.Join(ls, ", ")
+	}
+	innerText := func(it string, indent string) string {
+		if !nested {
+			return ""
+		}
+		var ib strings.Builder
+		for j := rapid.IntRange(0, 2).Draw(t, "ninner"); j > 0; j-- {
+			switch rapid.IntRange(0, 3).Draw(t, "innerkind") {
+			case 0:
+				fmt.Fprintf(&ib, "%sinner {\n%s  w = \"static\"\n%s}\n", indent, indent, indent)
+			case 1:
+				fe := rapid.SampledFrom([]string{"k1", "k2", "u1", "u2"}).Draw(t, "inner_for_each")
+				fmt.Fprintf(&ib, "%sdynamic \"inner\" {\n%s  for_each = %s\n%s  content {\n%s    w = inner.value\n%s  }\n%s}\n", indent, indent, fe, indent, indent, indent, indent)
+			default:
+				if it == "" {
+					fmt.Fprintf(&ib, "%sinner {\n%s  w = \"static2\"\n%s}\n", indent, indent, indent)
+				} else {
+					fmt.Fprintf(&ib, "%sdynamic \"inner\" {\n%s  for_each = [%s.value, \"x\"]\n%s  content {\n%s    w = inner.value\n%s  }\n%s}\n", indent, indent, it, indent, indent, indent, indent)
+				}
+			}
+		}
+		return ib.String()
+	}
+	for i := 0; i < nItems; i++ {
+		if rapid.IntRange(0, 2).Draw(t, "static") == 0 {
+			ls := labelsFor(false, "")
+			ls = strings.ReplaceAll(ls, ", ", " ")
+			if rapid.Bool().Draw(t, "static_reads_variable") {
+				fmt.Fprintf(&sb, "b %s {\n  v = sv%d\n  k = %d\n%s}\n", ls, i, i, innerText("", "  "))
+			} else {
+				fmt.Fprintf(&sb, "b %s {\n  v = \"static%d\"\n  k = %d\n%s}\n", ls, i, i, innerText("", "  "))
+			}
+			knownNeighbour = true
+			continue
+		}
+		fe := rapid.SampledFrom([]string{"k1", "k2", "u1", "u2", "u1"}).Draw(t, "for_each")
+		it := "b"
+		iterLine := ""
+		if rapid.IntRange(0, 2).Draw(t, "custom_iterator") == 0 {
+			it = "it"
+			iterLine = "  iterator = it\n"
+		}
+		labelLine := ""
+		if nlabels > 0 {
+			labelLine = "  labels = [" + labelsFor(true, it) + "]\n"
+		}
+		if strings.HasPrefix(fe, "u") {
+			unknownPresent = true
+		} else {
+			knownNeighbour = true
+		}
+		fmt.Fprintf(&sb, "dynamic \"b\" {\n  for_each = %s\n%s%s  content {\n    v = %s.value\n    k = %s.key\n%s  }\n}\n", fe, iterLine, labelLine, it, it, innerText(it, "    "))
+	}
+	if rapid.Bool().Draw(t, "top_attr") {
+		sb.WriteString("top = \"t\"\n")
+	}
+	src := sb.String()
+	return ufeCase{src: src, kind: kind, spec: spec, abstract: abstract, concrete: concrete, unknownPresent: unknownPresent, knownNeighbour: knownNeighbour}
+}
+
 // TestC18_UnknownForEach: directed family for the clause "when a for_each collection is
 // unknown the result is still of the specification's implied type with the affected part
 // unknown". A sequence of static and dynamic blocks of one type is decoded by each
@@ -25,149 +188,8 @@ func TestC18_UnknownForEach(t *testing.T) {
 		"directed family: 1..5 blocks of one type in sequence, each static or `dynamic` over a known list/map/set variable (0..3 elements) or over a variable that is unknown (typed list/map/set or dynamic) in the abstract run and a drawn collection of 0..3 elements in the concrete run; optionally nested one level (inner dynamic inside the content, inner for_each known/unknown/derived from the outer iterator); decoded by BlockList / BlockSet / BlockTuple / BlockMap (1-2 labels) / BlockObject specs with an attribute reading the iterator; oracle: the abstract result conforms to the implied type and is consistent with the concrete one (nothing it states as known - a length, a key, an attribute value - is contradicted), no error in the abstract run that the concrete run does not have; non-trivial = an unknown dynamic block next to a block with a known body, concrete size != 1; distinct by (source, spec kind)",
 		func(c *hx.Case) {
 			t := c.T
-			kind := rapid.SampledFrom([]string{"list", "list", "set", "tuple", "map", "map2", "object"}).Draw(t, "speckind")
-			nlabels := 0
-			switch kind {
-			case "map", "object":
-				nlabels = 1
-			case "map2":
-				nlabels = 2
-			}
-			nested := rapid.IntRange(0, 2).Draw(t, "nested") == 0
-			kty := cty.String
-			if kind == "tuple" || kind == "object" {
-				kty = cty.DynamicPseudoType // not allowed inside the homogeneous collections
-			}
-			innerAttrs := hcldec.ObjectSpec{
-				"v": &hcldec.AttrSpec{Name: "v", Type: cty.String},
-				"k": &hcldec.AttrSpec{Name: "k", Type: kty},
-			}
-			if nested {
-				innerAttrs["inner"] = &hcldec.BlockListSpec{TypeName: "inner", Nested: hcldec.ObjectSpec{"w": &hcldec.AttrSpec{Name: "w", Type: cty.String}}}
-			}
-			var spec hcldec.Spec
-			labelNames := []string{"l1", "l2"}[:nlabels]
-			switch kind {
-			case "list":
-				spec = &hcldec.BlockListSpec{TypeName: "b", Nested: innerAttrs}
-			case "set":
-				spec = &hcldec.BlockSetSpec{TypeName: "b", Nested: innerAttrs}
-			case "tuple":
-				spec = &hcldec.BlockTupleSpec{TypeName: "b", Nested: innerAttrs}
-			case "map", "map2":
-				spec = &hcldec.BlockMapSpec{TypeName: "b", LabelNames: labelNames, Nested: innerAttrs}
-			default:
-				spec = &hcldec.BlockObjectSpec{TypeName: "b", LabelNames: labelNames, Nested: innerAttrs}
-			}
-			if rapid.Bool().Draw(t, "wrapped") {
-				spec = hcldec.ObjectSpec{"bs": spec, "top": &hcldec.AttrSpec{Name: "top", Type: cty.String}}
-			}
-			// scope
-			drawColl := func(label string) cty.Value {
-				n := rapid.IntRange(0, 3).Draw(t, label+"_n")
-				shape := rapid.SampledFrom([]string{"list", "map", "set"}).Draw(t, label+"_shape")
-				var elems []cty.Value
-				m := map[string]cty.Value{}
-				for i := 0; i < n; i++ {
-					s := fmt.Sprintf("%s%d", label, i)
-					elems = append(elems, cty.StringVal(s))
-					m["k"+s] = cty.StringVal(s)
-				}
-				switch {
-				case shape == "list" && n > 0:
-					return cty.ListVal(elems)
-				case shape == "list":
-					return cty.ListValEmpty(cty.String)
-				case shape == "map" && n > 0:
-					return cty.MapVal(m)
-				case shape == "map":
-					return cty.MapValEmpty(cty.String)
-				case n > 0:
-					return cty.SetVal(elems)
-				default:
-					return cty.SetValEmpty(cty.String)
-				}
-			}
-			concrete := map[string]cty.Value{"k1": drawColl("k1"), "k2": drawColl("k2"), "u1": drawColl("u1"), "u2": drawColl("u2")}
-			abstract := map[string]cty.Value{}
-			for n, v := range concrete {
-				abstract[n] = v
-				if strings.HasPrefix(n, "u") {
-					if rapid.IntRange(0, 3).Draw(t, "dynamic_typed") == 0 {
-						abstract[n] = cty.DynamicVal
-					} else {
-						abstract[n] = cty.UnknownVal(v.Type())
-					}
-				}
-			}
-			// body
-			var sb strings.Builder
-			nItems := rapid.IntRange(1, 5).Draw(t, "nitems")
-			unknownPresent, knownNeighbour, labelSeq := false, false, 0
-			labelsFor := func(dynamic bool, it string) string {
-				var ls []string
-				for i := 0; i < nlabels; i++ {
-					labelSeq++
-					if dynamic && rapid.Bool().Draw(t, "label_from_iterator") {
-						ls = append(ls, fmt.Sprintf("\"${%s.key}-%d\"", it, labelSeq))
-					} else {
-						ls = append(ls, fmt.Sprintf("\"s%d\"", labelSeq))
-					}
-				}
-				return strings.Join(ls, ", ")
-			}
-			innerText := func(it string, indent string) string {
-				if !nested {
-					return ""
-				}
-				var ib strings.Builder
-				for j := rapid.IntRange(0, 2).Draw(t, "ninner"); j > 0; j-- {
-					switch rapid.IntRange(0, 3).Draw(t, "innerkind") {
-					case 0:
-						fmt.Fprintf(&ib, "%sinner {\n%s  w = \"static\"\n%s}\n", indent, indent, indent)
-					case 1:
-						fe := rapid.SampledFrom([]string{"k1", "k2", "u1", "u2"}).Draw(t, "inner_for_each")
-						fmt.Fprintf(&ib, "%sdynamic \"inner\" {\n%s  for_each = %s\n%s  content {\n%s    w = inner.value\n%s  }\n%s}\n", indent, indent, fe, indent, indent, indent, indent)
-					default:
-						if it == "" {
-							fmt.Fprintf(&ib, "%sinner {\n%s  w = \"static2\"\n%s}\n", indent, indent, indent)
-						} else {
-							fmt.Fprintf(&ib, "%sdynamic \"inner\" {\n%s  for_each = [%s.value, \"x\"]\n%s  content {\n%s    w = inner.value\n%s  }\n%s}\n", indent, indent, it, indent, indent, indent, indent)
-						}
-					}
-				}
-				return ib.String()
-			}
-			for i := 0; i < nItems; i++ {
-				if rapid.IntRange(0, 2).Draw(t, "static") == 0 {
-					ls := labelsFor(false, "")
-					ls = strings.ReplaceAll(ls, ", ", " ")
-					fmt.Fprintf(&sb, "b %s {\n  v = \"static%d\"\n  k = %d\n%s}\n", ls, i, i, innerText("", "  "))
-					knownNeighbour = true
-					continue
-				}
-				fe := rapid.SampledFrom([]string{"k1", "k2", "u1", "u2", "u1"}).Draw(t, "for_each")
-				it := "b"
-				iterLine := ""
-				if rapid.IntRange(0, 2).Draw(t, "custom_iterator") == 0 {
-					it = "it"
-					iterLine = "  iterator = it\n"
-				}
-				labelLine := ""
-				if nlabels > 0 {
-					labelLine = "  labels = [" + labelsFor(true, it) + "]\n"
-				}
-				if strings.HasPrefix(fe, "u") {
-					unknownPresent = true
-				} else {
-					knownNeighbour = true
-				}
-				fmt.Fprintf(&sb, "dynamic \"b\" {\n  for_each = %s\n%s%s  content {\n    v = %s.value\n    k = %s.key\n%s  }\n}\n", fe, iterLine, labelLine, it, it, innerText(it, "    "))
-			}
-			if rapid.Bool().Draw(t, "top_attr") {
-				sb.WriteString("top = \"t\"\n")
-			}
-			src := sb.String()
+			uc := drawUFECase(t)
+			src, kind, spec, abstract, concrete, unknownPresent, knownNeighbour := uc.src, uc.kind, uc.spec, uc.abstract, uc.concrete, uc.unknownPresent, uc.knownNeighbour
 			c.Set("source", src)
 			c.Set("spec", kind)
 			c.Class("spec_" + kind)
